@@ -43,7 +43,7 @@
 #define MAXRULES 16
 #define LOGFD 1000
 
-struct rule { long seq; int err; long short_n; int used; };
+struct rule { long seq; int err; long short_n; int used; long long lie_size; };
 
 static int g_active = 0;          /* tracking on */
 static unsigned char g_eof[4096];
@@ -87,12 +87,13 @@ static void parse_plan(const char *p) {
             if (*q == ':' && g_nrules < MAXRULES) {
                 q++;
                 struct rule *r = &g_rules[g_nrules];
-                r->seq = seq; r->err = 0; r->short_n = -1; r->used = 0;
+                r->seq = seq; r->err = 0; r->short_n = -1; r->used = 0; r->lie_size = -1;
                 size_t rem = n - (size_t)(q - p);
                 if (rem > 6 && !memcmp(q, "short=", 6)) r->short_n = strtol(q + 6, NULL, 10);
                 else if (rem == 4 && !memcmp(q, "zero", 4)) r->short_n = 0;
+                else if (rem > 5 && !memcmp(q, "size=", 5)) r->lie_size = strtoll(q + 5, NULL, 10);  /* stat reports this size */
                 else r->err = errno_by_name(q, rem);
-                if (r->err || r->short_n >= 0) g_nrules++;
+                if (r->err || r->short_n >= 0 || r->lie_size >= 0) g_nrules++;
             }
         } else if (n > 5 && !memcmp(p, "full=", 5)) g_full = strtol(p + 5, NULL, 10);
         else if (n > 6 && !memcmp(p, "eintr=", 6)) g_eintr = strtol(p + 6, NULL, 10);
@@ -439,6 +440,7 @@ int fstat64(int fd, struct stat64 *st) {
     long seq;
     if (meta_fault("fstat", g_paths[fd], &seq)) return -1;
     int ret = (int)raw(SYS_fstat, fd, (long)st, 0, 0);
+    { struct rule *r = rule_at(seq); if (r && r->lie_size >= 0 && ret == 0 && S_ISREG(st->st_mode)) { r->used = 1; st->st_size = (off_t)r->lie_size; } }
     int e = errno;
     logev(seq, "fstat", fd, g_paths[fd], 0, ret, ret < 0 ? e : 0, 0);
     errno = e;
@@ -460,7 +462,16 @@ int statx(int dirfd, const char *path_arg, int flags, unsigned int mask, struct 
     if (meta_fault(op, rel, &seq)) return -1;
     int ret = (int)syscall(SYS_statx, dirfd, path, flags, mask, stx);
     int e = errno;
-    logev(seq, op, -1, rel, 0, ret, ret < 0 ? e : 0, 0);
+    int inj = 0;
+    struct rule *r = rule_at(seq);
+    if (r && r->lie_size >= 0 && ret == 0 && stx && S_ISREG(stx->stx_mode)) {
+        /* the file system reports a size that is not the file's length: 0 (FIFO-like, procfs-like) or
+         * something enormous (sparse file); the content that read() returns is unchanged */
+        r->used = 1;
+        stx->stx_size = (unsigned long long)r->lie_size;
+        inj = 1;
+    }
+    logev(seq, op, -1, rel, inj ? (long)(r->lie_size >> 20) : 0, ret, ret < 0 ? e : 0, inj);
     errno = e;
     return ret;
 }
